@@ -35,10 +35,11 @@
       not fit the list and re-reads it from `anchor`; the discarded read may have reached the end of A
       (so it continues into `rest` on the longer buffer) although the cursor it returns is far from the
       end.  Nothing depends on the discarded item except the definitions registered while reading it —
-      and whether the re-read at `anchor` is a list again depends on the token order.  The literal
-      statement (same state) is in fact FALSE for exotic token orders: see `list_discard_registers_twice`.
-      For the default order one needs: the re-read is the same `ListItem.read`, hence reaches the end of
-      A too, hence the last block of A is that list (or indented code after it), not a closed block.
+      and whether the re-read at `anchor` is a list again depends on the token order.  With that
+      `List.read` the literal statement was FALSE, even for the default token order (see
+      `Proofs/LocalityLists.lean`); `List.read` now tests the next marker BEFORE reading its item
+      (`otherMarkerType`), and the full-strength statement is proved there
+      (`tokenizeBlock_prefix_lists`, `C05_blank_line_independent_full`); see also `list_other_marker_not_read`.
 
   Combination (`C05_blank_line_independent_partial`): under the hypotheses of (P) and (S),
   `blockPhase (A ++ ["\n"] ++ B)` = A's entries ++ B's entries shifted by `A.length + 1`, `loose = true`.
@@ -346,20 +347,21 @@ def cfgX : Cfg := { types := [.table, .list, .footnote, .paragraph] }
 def exA : List Str := [L "- a\n", L "* b | c\n", L "|-|-|\n"]
 def exB : List Str := [L "  [x]: y\n"]
 
-/-- **Why lists are left out of (P), and why the literal full-strength statement needs the default
-    token order.**  Token order `[Table, List, Footnote, Paragraph]` (possible through
-    `block_token._token_types`): A = "- a", "* b | c", "|-|-|" gives a list and a table (closed last
-    block), no definition.  `List.read` first reads "* b | c" … as an item (to the end of A), sees that
-    `*` does not fit the `-` list, and re-reads from "* b | c", now as a table.  With B = "  [x]: y"
-    behind a blank line the discarded item also swallows B, so `append_footnotes` is called twice with
-    `[x]` (kinds: 5 list, 6 table, 7 footnote; last component = number of definitions registered).
-    The real code does the same (two `append_footnotes` calls); its `footnotes` dict ignores the
-    second one, and the entries are as C05 says. -/
-theorem list_discard_registers_twice :
+/-- **A marker of another type is left unread** (behaviour after the repair of `List.read`; before it, the
+    item behind such a marker was read and then discarded, but the link reference definitions found
+    in it stayed registered — `append_footnotes` was called twice for `[x]` on this input, and in
+    `["- \n", "\n", "* * *\n", "para [foo]\n"] ++ ["\n"] ++ ["      [foo]: /url\n"]` a definition that
+    neither part contains was registered, turning `[foo]` into a link).
+    Token order `[Table, List, Footnote, Paragraph]`: A = "- a", "* b | c", "|-|-|" gives a list and a
+    table (closed last block), no definition.  `List.read` sees that `*` does not fit the `-` list
+    and stops in front of "* b | c", which the dispatcher reads as a table.  With B = "  [x]: y"
+    behind a blank line, `[x]` is registered once, by B's own `Footnote.read`
+    (kinds: 5 list, 6 table, 7 footnote; last component = number of definitions registered). -/
+theorem list_other_marker_not_read :
     digestR (blockPhase cfgX 60 exA) = some ([(5, 1, 1), (13, 1, 1), (9, 1, 1), (6, 2, 2)], false, 0) ∧
     digestR (blockPhase cfgX 60 exB) = some ([(7, 1, 1)], false, 1) ∧
     digestR (blockPhase cfgX 60 (exA ++ [['\n']] ++ exB)) =
-      some ([(5, 1, 1), (13, 1, 1), (9, 1, 1), (6, 2, 2), (7, 5, 5)], true, 2) := by
+      some ([(5, 1, 1), (13, 1, 1), (9, 1, 1), (6, 2, 2), (7, 5, 5)], true, 1) := by
   refine ⟨?_, ?_, ?_⟩ <;> decide +kernel
 
 
